@@ -67,6 +67,12 @@ def _cast_scaled(x, dtype=None, name=1.0):
     return (x * name).astype(dtype)
 
 
+@pb.signal_transform
+def _qscale(x, delay=1 * u.s, gain=1.0):
+    """A transform with Quantity keywords (their unit matters)."""
+    return x * (float(np.sum(delay.to_value(u.s))) * 1e3 + gain)
+
+
 def _imul(z, w):
     """y = copy of z; y *= w (an in-place operator keeps the container's dtype)."""
     y = type(z).like(z, z.data.copy())
@@ -170,6 +176,11 @@ OPS = [
     ("signal_transform x2", any_sig, lambda z: _double(z)),
     ("signal_transform with dtype= and name= keywords of its own", floaty,
      lambda z: _cast_scaled(z, dtype=np.complex64 if z.dtype.kind == "c" else np.float32, name=1.5)),
+    ("signal_transform with Quantity keywords: two units, and two nearly equal values, in one graph", floaty,
+     lambda z: (_qscale(z, delay=[1, 2] * u.ms) - _qscale(z, delay=[1, 2] * u.us))
+     + (_qscale(z, delay=0.5 * u.s) - _qscale(z, delay=0.500000001 * u.s)) * 1e6),
+    ("ufunc with dtype= (the loop, not a cast of the result)", lambda z: z.dtype.kind == "f",
+     lambda z: np.multiply(type(z).like(z, z.data.astype(np.float32)), 1 / 3, dtype=np.float64)),
     ("in-place multiply by double-precision weights", floaty, lambda z: _imul(z, _weights(z))),
     ("in-place add of a float64 array", floaty, lambda z: _imul(z, 1.0) if False else _iadd(z)),
     ("masked in-place add (out= with where=) of a float64 array into single-precision data", floaty, lambda z: _masked_iadd(z)),
